@@ -1,14 +1,17 @@
 (* C05 — concurrency caps: executable interleaving models of
      core/syncx/limit.go, timeoutlimit.go (+ cond.go), rest/handler/maxconnshandler.go   [Lim]
-     core/threading/taskrunner.go                                                         [TR]
+     core/threading/taskrunner.go (Schedule, ScheduleImmediately, Wait)                   [TR]
      core/syncx/pool.go (Get keeps the lock across the user's create())                   [PL]
+     core/mr/mapreduce.go executeMappers (behind ForEach / MapReduce / MapReduceVoid /
+       MapReduceChan / Finish / FinishVoid) and core/fx/stream.go walkLimited (behind
+       Walk / Parallel / Map / Filter)                                                     [WP]
+     core/threading/workergroup.go                                                         [WG]
    No proofs in this file.  Threads are scripts of API calls; every call is split into the
    atomic actions of the Go code (one per channel operation / mutex section / callback start
    and end).  [step s x] performs the next atomic action of thread x (x < number of threads)
-   or of pseudo-thread x - N (a timer of TimeoutLimit, a task goroutine of TaskRunner);
-   [None] = disabled (blocked / finished / absent).  Schedules are [list nat]
-   (Lib/Sched.run); theorems quantify over all of them.  MapReduce/fx worker caps are
-   buffered-channel semaphores used exactly like [Lim] Borrow/Return (mr: pool <- ; <-pool). *)
+   or of pseudo-thread x - N (a timer of TimeoutLimit, a task goroutine of TaskRunner, a
+   worker of a pool); [None] = disabled (blocked / finished / absent).  Schedules are
+   [list nat] (Lib/Sched.run); theorems quantify over all of them. *)
 From Coq Require Import List ZArith Bool Arith.
 From GZ Require Export Lib.Sched.
 Import ListNotations.
